@@ -19,9 +19,12 @@ EXPLANATION = (
     "discharged by a dominating guard (linear inequality implied by branch conditions), by interval arithmetic, "
     "or by a table entry with a reason (C14-AUDIT); every (offset,size) stored into the part directory must be "
     "dominated by a comparison against the end of the data region (C14-VALID); every fallible read is "
-    "propagated and open()/Decompressor::open propagate the failure (C14-ERR).  No file is opened or parsed.")
-UNDECIDED = ("that no truncation offset yields a directory that parses by chance and names the metadata streams "
-             "(argued in DESIGN 4/C14, sites past the directory are listed as notes); panics inside std/zstd")
+    "propagated and open()/Decompressor::open propagate the failure (C14-ERR); a tail that parses as a tiny or empty directory cannot "
+    "name the metadata streams, so Decompressor::open up to the propagated failure of its first metadata lookup, and that lookup "
+    "function outside its success arm, must contain no panic-capable site (C14-MISS); close() writes the directory once (C14-ONCE).  "
+    "No file is opened or parsed.")
+UNDECIDED = ("that no truncation offset yields a directory that names the metadata streams by chance "
+             "(sites behind a successful lookup are listed as notes); panics inside std/zstd")
 
 ALLOC = re.compile(r"alloc::vec::from_elem|alloc::vec::Vec::<T>::with_capacity$|alloc::vec::Vec::<T, A>::(reserve|reserve_exact|resize|with_capacity_in)$|"
                    r"alloc::string::String::(with_capacity|reserve)$|alloc::raw_vec")
